@@ -19,6 +19,7 @@ type Entry struct {
 	Type   reflect.Type
 	Schema *parquet.Schema
 	HasMap bool // contains Go maps: entry order is unspecified, compare values not streams
+	Shape  string // set for types that stand for one particular field shape: part of the failure keys
 
 	// GenericWriter[T]: batches gives the number of rows per Write call (0 = Flush), the rest in one call
 	WriteGeneric func(w io.Writer, rows any, batches []int, opts ...parquet.WriterOption) error
